@@ -244,6 +244,10 @@ func (matrix *DenseInt8Matrix) AsVector() Vector {
   return DenseInt8Vector(matrix.values)
 }
 func (matrix *DenseInt8Matrix) storageLocation() uintptr {
+  if len(matrix.values) == 0 {
+    // no storage to point into: the matrix header identifies an empty matrix
+    return uintptr(unsafe.Pointer(matrix))
+  }
   return uintptr(unsafe.Pointer(&matrix.values[0]))
 }
 /* const interface
